@@ -362,39 +362,65 @@ def nonstmts(rs):
     return ct.lst(out)
 
 
+def idx_list(ix):
+    return ct.lst([f'({a}%nat, {b}%nat, {c}%nat, {d}%nat)' for a, b, c, d in ix])
+
+
 def us_term(u):
     op = {-1: 'DDel', 0: 'DKeep', 1: 'DIns'}
-    return ('(mkUs ' + ct.lst([ct.boolean(b) for b in u['verb']]) + ' '
-            + ct.lst([f'({a}%nat, {b}%nat, {c}%nat, {d}%nat)' for a, b, c, d in u['index']]) + ' '
+    if any(k < 0 for k, _ in u['gen']):
+        raise RuntimeError('update_statements generated nodes for a statement that is not in the diff script')
+    return ('(mkUs ' + enc(u['name']) + ' ' + ct.lst([ct.boolean(b) for b in u['verb']]) + ' ' + idx_list(u['index']) + ' '
             + ct.lst([f'({op[o]}, {k}%nat)' for o, k in u['script']]) + ' '
-            + ct.lst([f'{x}%nat' for x in u['result']]) + ')')
+            + ct.lst([f'({k}%nat, {n}%nat)' for k, n in u['gen']]) + ' '
+            + ct.lst([f'{x}%nat' for x in u['result']]) + ' ' + idx_list(u['new_index']) + ')')
 
 
-def step_term(allowed, after, calls, updates):
+def sizes_opts_term(pairs):
+    out = []
+    for k, v in pairs:
+        if k not in ('LTH', 'PC'):
+            raise RuntimeError(f'unexpected option {k} in an inserted $SIZES record')
+        out.append(f'(Opt{k} {v}%nat)')
+    # the model lists PC before LTH (set_PC is called first)
+    return ct.lst(sorted(out, key=lambda t: 0 if t.startswith('(OptPC') else 1))
+
+
+def step_term(st, allowed):
+    after, calls = st['after'], st['calls']
+    si = st.get('sizes_in')
+    sizes_in = 'None' if si is None else f'(Some ({si[0]}%nat, {si[1]}%nat, {ct.boolean(si[2])}))'
+    ins = ct.lst([sizes_opts_term(c['sizes']) for c in calls if c.get('sizes') is not None])
     return (f"(mkMStep {ct.lst([enc(a) for a in allowed])} {'None' if after is None else '(Some ' + srecs(after) + ')'} "
             + ct.lst([call_term(c) for c in calls]) + ' ' + ('[]' if after is None else nonstmts(after)) + ' '
-            + ct.lst([us_term(u) for u in updates]) + ')')
+            + ct.lst([us_term(u) for u in st['updates']]) + ' ' + sizes_in + ' ' + ins + ' ' + ct.boolean(st.get('reread', True)) + ')')
 
 
 def mcase_term(spec, out):
-    us = out['us']
     return ('(mkMCase ' + enc(spec['text']) + ' ' + ct.boolean(out['code_eq']) + '\n ' + srecs(out['before']) + '\n '
             + nonstmts(out['before']) + '\n '
-            + step_term([], us['after'], us['calls'], us['updates']) + '\n '
-            + ct.lst([step_term(e['allowed'], e['after'], e['calls'], e['updates']) for e in out['edits']]) + ')')
+            + step_term(out['us'], []) + '\n '
+            + ct.lst([step_term(e, e['allowed']) for e in out['edits']]) + '\n '
+            + ct.lst([step_term(e, e['allowed']) for e in out.get('history', [])]) + ')')
 
 
-M_ORACLE = {14: TAGS[14], 15: TAGS[15], 16: TAGS[16], 18: 'model.code differs from the text right after reading'}
+M_ORACLE = {14: TAGS[14], 15: TAGS[15], 16: TAGS[16], 18: 'model.code differs from the text right after reading',
+            22: 're-reading the code after successive edits of a code record does not give the in-memory statements'}
 
 
 def classify_model(ctx, spec, out, tags, report=True):
     """tags of one mcase (offset by 1000*step).  Returns a list of statuses, one per step."""
-    nsteps = 1 + len(out['edits'])
+    steps = [{'name': 'update_source'}] + out['edits'] + out.get('history', [])
+    nsteps = len(steps)
     statuses = []
+    chain = {t - 1000 * nsteps for t in tags if t >= 1000 * nsteps}
+    if 23 in chain and report:
+        ctx.broken.append('correspondence C03: the index used by a later update_statements call of a history is not the one '
+                          'the previous call stored, on ' + json.dumps(spec)[:300])
     for k in range(nsteps):
         ts = {t - 1000 * k for t in tags if 1000 * k <= t < 1000 * (k + 1)}
-        label = 'update_source' if k == 0 else out['edits'][k - 1]['name']
-        corr = sorted(ts & {7, 10, 13})
+        label = steps[k]['name']
+        corr = sorted(ts & {7, 10, 13, 21})
         status = 'ok'
         fail = None
         if 18 in ts:
@@ -405,13 +431,23 @@ def classify_model(ctx, spec, out, tags, report=True):
             fail = 15
         elif 16 in ts:
             fail = 16
+        elif 22 in ts:
+            fail = 22
         if fail is not None:
             # which open findings explain it: the exported real calls show the mechanism (tags 212..215), and the
             # difference must vanish when exactly that mechanism is discounted (tags 17, 19, 20)
             expl = []
             regroup, abbr = 212 in ts, (213 in ts or 214 in ts)
             abbr_id = 'C03-ABBR-THETA-DROP' if (215 in ts and fail == 14) else 'C03-ABBR-REWRITE'
-            if fail in (14, 15):
+            sizes = 216 in ts
+            if fail in (14, 15) and sizes:
+                # a $SIZES record was inserted: excused only when the model of update_sizes agrees that the model needs one
+                # (217, and no disagreement 21) and nothing else differs (24)
+                if 217 in ts and 21 not in ts and 24 not in ts and not regroup and not abbr:
+                    expl = ['C03-SIZES-APPEND']
+                if not all(ctx.open_finding(f) for f in expl):
+                    expl = []
+            elif fail in (14, 15):
                 if regroup and not abbr and 19 not in ts:
                     expl = ['C03-REPLACE-ALL-REGROUP']
                 elif abbr and not regroup and 17 not in ts:
@@ -526,7 +562,8 @@ def run(ctx):
         'CodeRecord.update_statements is proved over abstract nodes/statements with the LCS diff and the code generator as parameters; '
         'it is tied to the code only through the oracle (edits of $PK/$ERROR keep comments and unrelated records)',
     ]
-    ctx.coverage['source_sha'] = source_sha(tables.FACTORY, tables.NMTRAN, tables.PARSERS, tables.IGNORED,
+    ctx.coverage['source_sha'] = source_sha(tables.FACTORY, tables.NMTRAN, tables.PARSERS, tables.IGNORED, tables.SIZES,
+                                            'src/pharmpy/model/external/nonmem/records/code_record.py',
                                             'src/pharmpy/internals/parse/generic.py',
                                             'src/pharmpy/internals/parse/missing.py')
     finding_probes(ctx)
@@ -556,18 +593,21 @@ def run(ctx):
             else:
                 kinds['(unknown records)'] = kinds.get('(unknown records)', 0) + 1
     # ---- model-level oracle
-    mspecs = [s for s in reg if s.get('kind') == 'model']
-    nm = int(os.environ.get('C03_NM', 0)) or (40 if ctx.tier == 'quick' else 450)
+    mspecs = [s for s in reg if s.get('kind') == 'model'] + oracle.boundary_specs()
+    nm = int(os.environ.get('C03_NM', 0)) or (56 if ctx.tier == 'quick' else 450)
     mspecs += [oracle.gen_spec(ctx.rng) for _ in range(nm)]
     outs, kept, mverdicts, statuses = run_model_specs(ctx, mspecs, 'models')
     mstat = {}
     for (s, o), st in zip(kept, statuses):
+        names = ['update_source'] + [e['name'] for e in o['edits']] + [e['name'] for e in o.get('history', [])]
         for k, x in enumerate(st):
-            label = 'update_source' if k == 0 else o['edits'][k - 1]['name']
+            label = names[k]
             mstat.setdefault(label, {}).setdefault(x, 0)
             mstat[label][x] += 1
-    ncalls = sum(len(o['us']['calls']) + sum(len(e['calls']) for e in o['edits']) for _, o in kept)
-    ctx.coverage['evaluations'] = len(specs) + sum(len(i['edits']) for i in infos) + sum(1 + len(o['edits']) for _, o in kept)
+    allsteps = lambda o: [o['us']] + o['edits'] + o.get('history', [])
+    ncalls = sum(len(st['calls']) for _, o in kept for st in allsteps(o))
+    ctx.coverage['evaluations'] = (len(specs) + sum(len(i['edits']) for i in infos)
+                                   + sum(1 + len(o['edits']) + len(o.get('history', [])) for _, o in kept))
     ctx.coverage['distinct_nontrivial'] = len({s['text'] for s, i in accepted if i['nrecs'] >= 2})
     ctx.coverage['rule'] = ('control-stream texts: regression corpus, example/test models of /repo, grammar-directed random '
                             'streams and layout mutations (VERIF_SEED); non-trivial = accepted by the parser and at least two '
@@ -578,9 +618,10 @@ def run(ctx):
         'model_specs': len(mspecs), 'models_read': len(kept),
         'read_failures': sum(1 for o in outs if not o.get('read_ok')),
         'steps_by_status': mstat, 'real_edit_method_calls_compared': ncalls,
-        'real_update_statements_calls_compared': sum(len(o['us']['updates']) + sum(len(e['updates']) for e in o['edits'])
-                                                     for _, o in kept),
-        'edit_exceptions': sum(1 for _, o in kept for e in o['edits'] if e['exc']),
+        'real_update_statements_calls_compared': sum(len(st['updates']) for _, o in kept for st in allsteps(o)),
+        'history_steps': sum(len(o.get('history', [])) for _, o in kept),
+        'boundary_models': [s['boundary'] for s, _ in kept if 'boundary' in s],
+        'edit_exceptions': sum(1 for _, o in kept for e in o['edits'] + o.get('history', []) if e['exc']),
     }
     ctx.coverage['input_distribution'] = {
         'texts': len(specs), 'accepted': len(accepted),
@@ -599,7 +640,7 @@ def run(ctx):
     zipped = list(zip(specs, verdicts))
     ctx.coverage['samples'] = ([{'text': s['text'][:300], 'tags': v} for s, v in zipped[nreg:nreg + 1]]
                                + [{'text': s['text'][:300], 'tags': v} for s, v in zipped[-3:]]
-                               + [{'model_seed': s['seed'], 'edits': s['edits'], 'tags': v, 'status': st}
+                               + [{'model_seed': s['seed'], 'edits': s['edits'], 'history': s.get('history'), 'tags': v, 'status': st}
                                   for (s, o), v, st in list(zip(kept, mverdicts, statuses))[-2:]])
 
 
